@@ -93,3 +93,58 @@ if os.environ.get("NSSMON_INJECT_ZSTEPS", "1") != "0":
         INSTALL_ERROR = repr(_e)
     else:
         INSTALL_ERROR = None
+
+
+# ---- pre-flight: never load native code in-process that the sanitizers object to ---------------
+_PREFLIGHT = None
+
+
+def boundary_grid_lines():
+    import math
+
+    f32 = lambda x: float(np.float32(x)).hex()
+    lines = []
+    for bdeg in (0.0, 1.0, 10.0, 42.0):
+        stv = math.sin(math.asin(6378.14 / (6378.14 + 525.0) * math.cos(math.radians(max(bdeg, 1.0)))))
+        for alt in (0.0, 1e-300, 3.7, 11.0, 20.0, 64.99, 65.0):
+            lines.append(" ".join([float(alt).hex(), f32(stv), f32(6378.14), f32(65.0), f32(525.0), f32(0.1), f32(3.1415926)]))
+            lines.append(" ".join([float(alt).hex(), float(stv).hex(), float(6378.14).hex(), float(65.0).hex(), float(525.0).hex(), float(0.1).hex(), float(3.1415926).hex()]))
+    return lines
+
+
+def run_sanitized(lines, timeout=600):
+    """Returns dict(exit, out, plain_out, stderr, report: bool) for the ASan+UBSan driver."""
+    import subprocess
+
+    san, plain = os.path.join(BUILD, "zsteps_san"), os.path.join(BUILD, "zsteps_plain")
+    if not (os.path.exists(san) and os.path.exists(plain)):
+        return {"missing": True}
+    inp = ("\n".join(lines) + "\n").encode()
+    env = dict(os.environ, ASAN_OPTIONS="halt_on_error=1:abort_on_error=1:detect_leaks=1", UBSAN_OPTIONS="halt_on_error=1:print_stacktrace=1")
+    try:
+        rs = subprocess.run([san], input=inp, capture_output=True, timeout=timeout, env=env)
+        rp = subprocess.run([plain], input=inp, capture_output=True, timeout=timeout)
+    except subprocess.TimeoutExpired:
+        return {"timeout": True}
+    err = rs.stderr.decode(errors="replace")
+    report = rs.returncode != 0 or "ERROR" in err or "runtime error" in err
+    return {"exit": rs.returncode, "out": rs.stdout.decode().strip(), "plain_out": rp.stdout.decode().strip(), "plain_exit": rp.returncode, "stderr": err, "report": report}
+
+
+def preflight():
+    """Sanitized run of the working tree's zsteps.cpp on the boundary grid, once per process tree."""
+    global _PREFLIGHT
+    if _PREFLIGHT is None:
+        _PREFLIGHT = run_sanitized(boundary_grid_lines(), timeout=120)
+    return _PREFLIGHT
+
+
+def require_safe():
+    """For checks that run the kernel in-process but do not own C06."""
+    from .core import Inconclusive
+
+    r = preflight()
+    if r.get("missing") or r.get("timeout"):
+        raise Inconclusive("zsteps.cpp sanitizer pre-flight unavailable (missing build or timeout)")
+    if r["report"] or r["out"] != r["plain_out"]:
+        raise Inconclusive("zsteps.cpp: the sanitizer pre-flight reports a defect in the stepping code (decided by check C06); native code not loaded in-process")
